@@ -18,7 +18,10 @@ import (
 type vReal struct {
 	db     *vDB
 	opts   types.PruningOptions
+	late   bool // SetPruning is called after the stores were loaded (both orders are legal)
 	k1, k2 *types.KVStoreKey
+	k3     *types.KVStoreKey // mounted but empty until block 3
+	tk     *types.TransientStoreKey
 	rs     *Store
 	ids    [8]types.CommitID
 	events int
@@ -27,19 +30,33 @@ type vReal struct {
 
 func (w *vReal) open() *Store {
 	rs := NewStore(w.db)
-	rs.SetPruning(w.opts)
+	if !w.late {
+		rs.SetPruning(w.opts)
+	}
 	rs.MountStoreWithDB(w.k1, types.StoreTypeIAVL, nil)
 	rs.MountStoreWithDB(w.k2, types.StoreTypeIAVL, nil)
+	rs.MountStoreWithDB(w.k3, types.StoreTypeIAVL, nil)
+	rs.MountStoreWithDB(w.tk, types.StoreTypeTransient, nil)
 	return rs
+}
+
+// load: LoadLatestVersion / LoadVersion followed by the late SetPruning, as an application does
+func (w *vReal) loaded(rs *Store, err error) error {
+	if w.late && err == nil {
+		rs.SetPruning(w.opts)
+	}
+	return err
 }
 
 func vNewReal() *vReal {
 	w := &vReal{crash: 1 << 30}
 	w.db = &vDB{MemDB: dbm.NewMemDB(), events: &w.events, crashAt: &w.crash}
 	w.opts = types.NewPruningOptions(zz.Int64("keep_recent", 0, 2), zz.Int64("keep_every", 0, 2))
-	w.k1, w.k2 = types.NewKVStoreKey("alpha"), types.NewKVStoreKey("beta")
+	w.late = zz.Choice("set_pruning_after_load", 2) == 1
+	w.k1, w.k2, w.k3 = types.NewKVStoreKey("alpha"), types.NewKVStoreKey("beta"), types.NewKVStoreKey("gamma")
+	w.tk = types.NewTransientStoreKey("transient")
 	w.rs = w.open()
-	zz.Assert("C12.real.load-empty", w.rs.LoadLatestVersion() == nil)
+	zz.Assert("C12.real.load-empty", w.loaded(w.rs, w.rs.LoadLatestVersion()) == nil)
 	return w
 }
 
@@ -53,6 +70,14 @@ func (w *vReal) block(rs *Store, v int64) {
 	if v == 3 {
 		rs.GetKVStore(w.k1).Delete([]byte("only2"))
 	}
+	if v >= 3 {
+		rs.GetKVStore(w.k3).Set([]byte("g"), []byte{3, byte(v)})
+	}
+	// per-block scratch data reaches the transient store the way baseapp's deliver state writes it: through a
+	// cache-wrapped multistore that is flushed before Commit
+	cms := rs.CacheMultiStore()
+	cms.GetKVStore(w.tk).Set([]byte("scratch"), []byte{byte(v)})
+	cms.Write()
 }
 
 func (w *vReal) commits(n int64) {
@@ -60,14 +85,18 @@ func (w *vReal) commits(n int64) {
 		w.block(w.rs, v)
 		w.ids[v] = w.rs.Commit()
 		zz.Assert("C12.real.version-advances-by-one", w.ids[v].Version == v)
+		zz.Assert("C12.real.transient-empty-after-commit", !w.rs.GetKVStore(w.tk).Has([]byte("scratch")))
 	}
 }
 
 // contentAt: does rs show exactly the content committed at version v
-func (w *vReal) contentAt(rs *Store, v int64) bool {
+func (w *vReal) contentAt(rs interface {
+	GetKVStore(types.StoreKey) types.KVStore
+}, v int64) bool {
 	return bytes.Equal(rs.GetKVStore(w.k1).Get([]byte("k")), []byte{1, byte(v)}) &&
 		bytes.Equal(rs.GetKVStore(w.k2).Get([]byte("k")), []byte{2, byte(v)}) &&
-		rs.GetKVStore(w.k1).Has([]byte("only2")) == (v == 2)
+		rs.GetKVStore(w.k1).Has([]byte("only2")) == (v == 2) &&
+		rs.GetKVStore(w.k3).Has([]byte("g")) == (v >= 3) && (v < 3 || bytes.Equal(rs.GetKVStore(w.k3).Get([]byte("g")), []byte{3, byte(v)}))
 }
 
 // vRetained: the documented pruning policy (store/iavl Commit): after committing version n, version v < n survives
@@ -93,7 +122,7 @@ func VerifC12_RealReload() {
 	target := zz.Int64("target", 0, N+1)
 	retained := target == N || (target >= 1 && target < N && vRetained(w.opts, target, N))
 	re := w.open()
-	err := re.LoadVersion(target)
+	err := w.loaded(re, re.LoadVersion(target))
 	switch {
 	case target == 0:
 		// (tendermint/iavl reads target version 0 as "latest": the substores of such a Store show the latest content;
@@ -110,9 +139,21 @@ func VerifC12_RealReload() {
 	default:
 		zz.Assert("C12.real.pruned-version-unreadable", err != nil)
 	}
+	// a versioned view of the running store shows committed content only, also for the latest version while the next
+	// block's writes are pending
+	w.block(w.rs, N+1)
+	for v := int64(1); v <= N; v++ {
+		if v == N || vRetained(w.opts, v, N) {
+			cms, verr := w.rs.CacheMultiStoreWithVersion(v)
+			zz.Assert("C12.real.versioned-view-opens", verr == nil)
+			if verr == nil {
+				zz.Assert("C12.real.versioned-view-shows-committed-content", w.contentAt(cms, v))
+			}
+		}
+	}
 	// latest reopen
 	re2 := w.open()
-	zz.Assert("C12.real.latest-reopens", re2.LoadLatestVersion() == nil && bytes.Equal(re2.LastCommitID().Hash, w.ids[N].Hash) && w.contentAt(re2, N))
+	zz.Assert("C12.real.latest-reopens", w.loaded(re2, re2.LoadLatestVersion()) == nil && bytes.Equal(re2.LastCommitID().Hash, w.ids[N].Hash) && w.contentAt(re2, N))
 	zz.Reach("C12.real.end")
 }
 
@@ -137,7 +178,7 @@ func VerifC11_HistoricalCopy() {
 	id := w.rs.Commit()
 	zz.Assert("C11.copy.next-commit-unaffected", id.Version == n+1)
 	re := w.open()
-	zz.Assert("C11.copy.next-commit-holds-working-state", re.LoadLatestVersion() == nil && w.contentAt(re, n+1))
+	zz.Assert("C11.copy.next-commit-holds-working-state", w.loaded(re, re.LoadLatestVersion()) == nil && w.contentAt(re, n+1))
 	zz.Reach("C11.copy.end")
 }
 
@@ -146,12 +187,14 @@ func VerifC11_HistoricalCopy() {
 // finds either the complete previous version or the complete new one, and re-running the block gives the same id.
 func VerifC13_RealCrash() {
 	w := vNewReal()
-	w.commits(2)
+	n := int64(zz.Choice("commits_before", 3)) // the interrupted commit is the first, second or third one
+	w.commits(n)
 	// uninterrupted reference run on the same history (a second world over its own DB)
 	ref := vNewRealWith(w.opts)
-	ref.commits(3)
+	ref.late = w.late
+	ref.commits(n + 1)
 
-	w.block(w.rs, 3)
+	w.block(w.rs, n+1)
 	before := w.events
 	w.crash = before + int(zz.Int64("crash_at", 0, 8))
 	crashed := false
@@ -173,7 +216,7 @@ func VerifC13_RealCrash() {
 		zz.Assert("C13.real.events-counted", total >= 3)
 	}
 	re := w.open()
-	err := re.LoadLatestVersion()
+	err := w.loaded(re, re.LoadLatestVersion())
 	known := zz.Known("prune-releases-previous-version-before-flush") && w.opts.KeepRecent() == 0
 	if err != nil {
 		if !known {
@@ -182,14 +225,25 @@ func VerifC13_RealCrash() {
 		return
 	}
 	v := re.LastCommitID().Version
-	zz.Assert("C13.real.previous-or-new", v == 2 || v == 3)
-	zz.Assert("C13.real.complete-version-across-stores", w.contentAt(re, v))
-	if v == 2 {
-		w.block(re, 3)
-		id := re.Commit()
-		zz.Assert("C13.real.reexecution-same-hash", id.Version == 3 && bytes.Equal(id.Hash, ref.ids[3].Hash))
+	zz.Assert("C13.real.previous-or-new", v == n || v == n+1)
+	// known finding first-commit-crash-leaves-substores-ahead: a crash inside the very first Commit after at least one
+	// substore saved version 1 reopens at multistore version 0 whose substores (tendermint/iavl reads target version 0
+	// as "latest") already show version-1 content, and re-executing block 1 then saves them as version 2
+	if zz.Known("first-commit-crash-leaves-substores-ahead") && n == 0 && crashed && v == 0 && w.events > before {
+		zz.Reach("C13.real.known-region-first-commit")
+		return
+	}
+	if v >= 1 {
+		zz.Assert("C13.real.complete-version-across-stores", w.contentAt(re, v))
 	} else {
-		zz.Assert("C13.real.new-version-hash", bytes.Equal(re.LastCommitID().Hash, ref.ids[3].Hash))
+		zz.Assert("C13.real.complete-version-across-stores", !re.GetKVStore(w.k1).Has([]byte("k")) && !re.GetKVStore(w.k2).Has([]byte("k")))
+	}
+	if v == n {
+		w.block(re, n+1)
+		id := re.Commit()
+		zz.Assert("C13.real.reexecution-same-hash", id.Version == n+1 && bytes.Equal(id.Hash, ref.ids[n+1].Hash))
+	} else {
+		zz.Assert("C13.real.new-version-hash", bytes.Equal(re.LastCommitID().Hash, ref.ids[n+1].Hash))
 	}
 	zz.Reach("C13.real.end")
 }
@@ -198,9 +252,10 @@ func vNewRealWith(o types.PruningOptions) *vReal {
 	w := &vReal{crash: 1 << 30}
 	w.db = &vDB{MemDB: dbm.NewMemDB(), events: &w.events, crashAt: &w.crash}
 	w.opts = o
-	w.k1, w.k2 = types.NewKVStoreKey("alpha"), types.NewKVStoreKey("beta")
+	w.k1, w.k2, w.k3 = types.NewKVStoreKey("alpha"), types.NewKVStoreKey("beta"), types.NewKVStoreKey("gamma")
+	w.tk = types.NewTransientStoreKey("transient")
 	w.rs = w.open()
-	zz.Assert("C12.real.load-empty", w.rs.LoadLatestVersion() == nil)
+	zz.Assert("C12.real.load-empty", w.loaded(w.rs, w.rs.LoadLatestVersion()) == nil)
 	return w
 }
 
@@ -208,7 +263,7 @@ func vNewRealWith(o types.PruningOptions) *vReal {
 // against that height's app hash and against no other height's, nothing for pruned/future heights.
 func VerifC14_RealQuery() {
 	w := vNewReal()
-	const N = 3
+	const N = 4
 	w.commits(N)
 	w.block(w.rs, N+1) // a later block being executed
 	si := zz.Choice("store", 2)
@@ -355,7 +410,7 @@ func VerifC12_RealHistory() {
 	target := int64(1 + zz.Choice("target", N))
 	retained := target == N || vRetained(w.opts, target, N)
 	re := w.open()
-	err := re.LoadVersion(target)
+	err := w.loaded(re, re.LoadVersion(target))
 	if retained {
 		zz.Assert("C12.realhist.retained-version-loads", err == nil)
 		if err == nil {
@@ -385,7 +440,7 @@ func VerifC01_RestartSameHash() {
 		zz.Assert("C01.restart.same-commit-id", ia.Version == ib.Version && bytes.Equal(ia.Hash, ib.Hash))
 		if v == restartAfter {
 			b.rs = b.open()
-			zz.Assert("C01.restart.reopens", b.rs.LoadLatestVersion() == nil)
+			zz.Assert("C01.restart.reopens", b.loaded(b.rs, b.rs.LoadLatestVersion()) == nil)
 			zz.Assert("C01.restart.same-last-commit-id", bytes.Equal(b.rs.LastCommitID().Hash, ia.Hash) && b.rs.LastCommitID().Version == v)
 			zz.Assert("C01.restart.same-state", vSameAsModel(b.rs, b.k1, withBlock(ma, v)) && vSameAsModel(a.rs, a.k1, withBlock(ma, v)))
 		}
